@@ -374,6 +374,7 @@ pub fn gen_replicas(prop: &str, r: &mut Prng, seed: u64, run: u64, thorough: boo
         }
         if p == PathKind::Builder {
             s.defaults = if prop == "C19" { true } else { std && !r.chance(1, 5) };
+            s.alt_names = matches!(prop, "C02" | "C10") && r.chance(1, 3);
         }
         replicas.push(s);
     }
